@@ -226,9 +226,9 @@ class Taps:
         return (rank, name)
 
     def _install(self):
-        import _griffe.loader as loader_mod
+        import _griffe.loader  # noqa: F401  (make sure the importers of merge_stubs are loaded)
         import _griffe.merger as merger_mod
-        import _griffe.mixins as mixins_mod
+        import _griffe.mixins  # noqa: F401
         import _griffe.models as models_mod
 
         taps = self
@@ -266,8 +266,12 @@ class Taps:
                 taps.depth -= 1
                 rec["after"] = taps.snapshot_targets(extra=(mod1, mod2))
 
-        loader_mod.merge_stubs = merge_stubs
-        mixins_mod.merge_stubs = merge_stubs
+        # merge_stubs is public; rebind the name in every _griffe module that imported it (whatever module calls it)
+        self.merge_tap = 0
+        for modname, module in list(sys.modules.items()):
+            if modname.startswith("_griffe.") and module is not merger_mod and getattr(module, "merge_stubs", None) is real_merge:
+                module.merge_stubs = merge_stubs
+                self.merge_tap += 1
 
         real_resolve = models_mod.Alias.resolve_target
         merger_file = merger_mod.__file__
@@ -293,19 +297,30 @@ class Taps:
 
         models_mod.Alias.resolve_target = resolve_target
 
-        # merge steps entered, in call order (trace validation against variable `tr` of Merge.tla)
-        for fname, op in (("_merge_module_stubs", "module"), ("_merge_class_stubs", "class"),
-                          ("_merge_function_stubs", "fun"), ("_merge_attribute_stubs", "attr")):
-            real_fn = getattr(merger_mod, fname)
+        with open(merger_file) as fh:
+            self._merger_lines = fh.read().splitlines()
 
-            def step(obj, stubs, _real=real_fn, _op=op):
-                rel = _rel_to_mod(stubs)
-                if rel is not None:
-                    taps.steps.append({"op": _op, "n": rel[0], "i": rel[1]})
-                return _real(obj, stubs)
+        # OPTIONAL taps on private functions of merger.py: the merger step trace (variable `tr` of Merge.tla) and the
+        # name of the dereferencing statement are conformance details; when the private layout differs they are skipped
+        # (the verdict only uses public observations: trees, flags, alias targets, exceptions).
+        private = (("_merge_module_stubs", "module"), ("_merge_class_stubs", "class"),
+                   ("_merge_function_stubs", "fun"), ("_merge_attribute_stubs", "attr"))
+        self.trace_ok = all(callable(getattr(merger_mod, fname, None)) for fname, _ in private)
+        self.sites_ok = all(callable(getattr(merger_mod, fname, None)) for fname in ("_merge_stubs_members", "_merge_stubs_overloads"))
+        self.skipped = ([] if self.trace_ok else ["merger step trace (private _merge_*_stubs functions not found)"]) + \
+                       ([] if self.sites_ok else ["dereference sites (private _merge_stubs_members/_merge_stubs_overloads not found)"]) + \
+                       ([] if self.merge_tap else ["merge_stubs calls (no _griffe module imports merge_stubs by name)"])
+        if self.trace_ok:
+            for fname, op in private:
+                real_fn = getattr(merger_mod, fname)
 
-            setattr(merger_mod, fname, step)
-        self._merger_lines = open(merger_file).read().splitlines()
+                def step(obj, stubs, _real=real_fn, _op=op):
+                    rel = _rel_to_mod(stubs)
+                    if rel is not None:
+                        taps.steps.append({"op": _op, "n": rel[0], "i": rel[1]})
+                    return _real(obj, stubs)
+
+                setattr(merger_mod, fname, step)
 
     def site_of(self, d: dict) -> str:
         """Abstract name of the merger statement that dereferenced an alias."""
@@ -314,7 +329,7 @@ class Taps:
             return "members-kind-test"
         if d["fn"] == "_merge_stubs_overloads":
             return "overloads-set"
-        return d["fn"] + ":" + text[:40]
+        return "other"
 
     # -- alias snapshots --------------------------------------------------------------------------------
     def snapshot_targets(self, extra=()) -> dict:
